@@ -91,6 +91,7 @@ type Node struct {
 	// the command pattern or the output paths (created with InParam only); the
 	// function reads the values with task.Param - an empty string is then a value
 	HiddenParams bool
+	Say     int  // > 0: the command prints that many bytes WITHOUT a newline on its standard output (a progress bar)
 	Head    int  // > 0: the command reads only the first Head bytes of each input and closes it (head -c)
 	TouchIn bool // the command re-writes its first input in place (same bytes, later mtime)
 	BgTail  bool // the command returns while a child of it still writes the rest of the first output
@@ -219,6 +220,9 @@ func (w *WF) Describe() string {
 		}
 		if n.Head > 0 {
 			fmt.Fprintf(&b, " reads-only-first=%d", n.Head)
+		}
+		if n.Say > 0 {
+			fmt.Fprintf(&b, " prints-%d-bytes-without-newline", n.Say)
 		}
 		if n.NoSpawn {
 			b.WriteString(" spawn=false")
